@@ -1,45 +1,49 @@
 import Unsized.MachineAtomicSeq
-import Unsized.MachineUlistAtomic
+import Unsized.MachineUmapAtomic
 /-!
-# Atomicity and canonical-on-error for all covered node kinds (`node_atomic2`, `node_err_canonical`)
-— wires `MachineAtomicSeq.lean` (set / map, by b-proof-map) into the coverage of `MachineAtomic.lean`
+# Atomicity and canonical-on-error for EVERY node kind and every op, under ANY refusal schedule
+(`node_atomic_all`, `node_err_canonical`, `applyOp_atomic_all`, `applyOp_err_canonical`)
+
+Wires the per-container results into one statement: `MachineAtomic.lean` (fixed / list / str / rem / struct /
+enum, generic ops), `MachineAtomicSeq.lean` (set / map, by b-proof-map), `MachineUlistAtomic.lean` /
+`MachineUmapAtomic.lean` (ulist / umap, by b-proof-map on b-proof-ulist's byte algebra).
 -/
 namespace Unsized.Machine
 open Common Unsized Unsized.Text
 
-/-- Node kinds whose ops are proved atomic / canonical-on-error under any refusal schedule. -/
-def atomicShape2 : Shape → Bool
-  | .set _ _ => true
-  | .map _ _ _ => true
-  | .ulist _ => true
-  | t => atomicShape t
-
-/-- The (node kind, op) pairs covered by `node_atomic2` / `node_err_canonical`. -/
-def SupportedA2 (t : Shape) (op : Op) : Bool := atomicShape2 t || genericOp op
-
-/-- `node_atomic` extended to `Set` and `Map` nodes. -/
-theorem node_atomic2 {s v p t u m} (F : Focus s v p t u m) (sm : Small m) (op : Op)
-    (hsup : SupportedA2 t op = true) (hnc : composite op = false) (m' : Mem) (e : Err)
-    (hne : e ≠ .initFail)
+/-- **Atomicity of every single-container op on every node kind, any refusal schedule**: an error other
+than the known-finding class `initFail` leaves bytes, `orig` and the schedule untouched. -/
+theorem node_atomic_all {s v p t u m} (F : Focus s v p t u m) (sm : Small m) (op : Op)
+    (hnc : composite op = false) (m' : Mem) (e : Err) (hne : e ≠ .initFail)
     (h : applyAt ⟨s, p⟩ t (offsetOf s v p) op m = (m', .error e)) :
     m'.bytes = m.bytes ∧ m'.orig = m.orig ∧ m'.refuse = m.refuse := by
   by_cases hg : genericOp op = true
   · exact node_atomic F sm op (by simp [SupportedA, hg]) hnc m' e h
   · have hg' : genericOp op = false := by simpa using hg
     have hv := F.sub.valid
-    simp only [SupportedA2, hg', Bool.or_false] at hsup
-    cases t <;> first
-      | exact node_atomic F sm op (by simpa [SupportedA, atomicShape2, hg'] using hsup) hnc m' e h
-      | (cases u <;> simp only [valid, Bool.false_eq_true] at hv
-         first
-           | exact set_atomic F sm op hg' hnc m' e h
-           | exact map_atomic F sm op hg' hnc m' e h
-           | exact ulist_atomic F sm op hg' m' e hne h)
+    have same : ∀ {m'' : Mem} {e' : Err}, (m, (Except.error e' : Except Err Ret)) = (m'', .error e) →
+        m''.bytes = m.bytes ∧ m''.orig = m.orig ∧ m''.refuse = m.refuse := by
+      intro m'' e' hh; cases hh; exact ⟨rfl, rfl, rfl⟩
+    cases t <;> cases u <;> simp only [valid, Bool.false_eq_true] at hv
+    · exact node_atomic F sm op (by simp [SupportedA, atomicShape]) hnc m' e h
+    · exact node_atomic F sm op (by simp [SupportedA, atomicShape]) hnc m' e h
+    · exact set_atomic F sm op hg' hnc m' e h
+    · exact map_atomic F sm op hg' hnc m' e h
+    · exact node_atomic F sm op (by simp [SupportedA, atomicShape]) hnc m' e h
+    · exact node_atomic F sm op (by simp [SupportedA, atomicShape]) hnc m' e h
+    · exact ulist_atomic F sm op hg' m' e hne h
+    · exact umap_atomic_all F sm op hg' m' e hne h
+    · exact node_atomic F sm op (by simp [SupportedA, atomicShape]) hnc m' e h
+    · exact node_atomic F sm op (by simp [SupportedA, atomicShape]) hnc m' e h
+    · cases op <;> simp [genericOp] at hg' <;> simp only [applyAt] at h <;> exact same h
+    all_goals (cases op <;> simp [genericOp] at hg' <;> simp only [applyAt] at h <;> exact same h)
 
-/-- **Every covered op, composite or not, under any refusal schedule**: on an error the buffer is the
-canonical serialization of SOME well-formed value at the node (for single-container ops: the old one). -/
+/-- **Every op, composite or not, every node kind, any refusal schedule**: on an error (other than
+`initFail`) the buffer is the canonical serialization of SOME well-formed value at the node — the old one
+for single-container ops; for `Map/Set::insert_all` the container with the first i new entries, for
+`UnsizedString::set` the old or the empty string. -/
 theorem node_err_canonical {s v p t u m} (F : Focus s v p t u m) (sm : Small m) (op : Op)
-    (hsup : SupportedA2 t op = true) (m' : Mem) (e : Err) (hne : e ≠ .initFail)
+    (m' : Mem) (e : Err) (hne : e ≠ .initFail)
     (h : applyAt ⟨s, p⟩ t (offsetOf s v p) op m = (m', .error e)) :
     ∃ u', Focus s (subst s v p u') p t u' m' ∧ m'.orig = m.orig ∧ m'.refuse = m.refuse := by
   have same : ∀ {m'' : Mem}, m''.bytes = m.bytes → m''.orig = m.orig → m''.refuse = m.refuse →
@@ -47,7 +51,7 @@ theorem node_err_canonical {s v p t u m} (F : Focus s v p t u m) (sm : Small m) 
     intro m'' hb ho hr
     exact ⟨u, Focus.congr F.same m'' hb, ho, hr⟩
   by_cases hnc : composite op = false
-  · obtain ⟨hb, ho, hr⟩ := node_atomic2 F sm op hsup hnc m' e hne h
+  · obtain ⟨hb, ho, hr⟩ := node_atomic_all F sm op hnc m' e hne h
     exact same hb ho hr
   · have hv := F.sub.valid
     have bad : ∀ {m'' : Mem} {e' : Err}, (m, (Except.error e' : Except Err Ret)) = (m'', .error e) →
@@ -82,11 +86,9 @@ theorem node_err_canonical {s v p t u m} (F : Focus s v p t u m) (sm : Small m) 
         exact ⟨_, F', ho, hr⟩
       · exact bad h
 
-
-/-- Whole-value atomicity for all covered node kinds. -/
-theorem applyOp_atomic2 (s : Shape) (v : Val) (g : Good s v) (m : Mem) (hm : m.bytes = encode s v)
-    (sm : Small m) (p : List Step) (op : Op)
-    (hsup : ∀ t u, resolve s v p = .ok (t, u) → SupportedA2 t op = true) (hnc : composite op = false)
+/-- Whole-value atomicity, every op line. -/
+theorem applyOp_atomic_all (s : Shape) (v : Val) (g : Good s v) (m : Mem) (hm : m.bytes = encode s v)
+    (sm : Small m) (p : List Step) (op : Op) (hnc : composite op = false)
     (m' : Mem) (e : Err) (hne : e ≠ .initFail) (h : applyOp s p op m = (m', .error e)) :
     m'.bytes = m.bytes ∧ m'.orig = m.orig ∧ m'.refuse = m.refuse := by
   have hloc := locate_encode p s v g [] [] 0 rfl
@@ -99,13 +101,11 @@ theorem applyOp_atomic2 (s : Shape) (v : Val) (g : Good s v) (m : Mem) (hm : m.b
     obtain ⟨t, u⟩ := tu
     rw [hr] at h
     simp only [] at h
-    exact node_atomic2 ⟨g, hr, hm⟩ sm op (hsup t u hr) hnc m' e hne h
+    exact node_atomic_all ⟨g, hr, hm⟩ sm op hnc m' e hne h
 
-/-- Whole-value "no corruption": after an error the buffer is the canonical serialization of some
-well-formed value of the type, for every covered op and every refusal schedule. -/
+/-- Whole-value "no corruption", every op line, every refusal schedule. -/
 theorem applyOp_err_canonical (s : Shape) (v : Val) (g : Good s v) (m : Mem) (hm : m.bytes = encode s v)
     (sm : Small m) (p : List Step) (op : Op)
-    (hsup : ∀ t u, resolve s v p = .ok (t, u) → SupportedA2 t op = true)
     (m' : Mem) (e : Err) (hne : e ≠ .initFail) (h : applyOp s p op m = (m', .error e)) :
     ∃ v', Good s v' ∧ m'.bytes = encode s v' ∧ m'.orig = m.orig ∧ m'.refuse = m.refuse := by
   have hloc := locate_encode p s v g [] [] 0 rfl
@@ -118,7 +118,7 @@ theorem applyOp_err_canonical (s : Shape) (v : Val) (g : Good s v) (m : Mem) (hm
     obtain ⟨t, u⟩ := tu
     rw [hr] at h
     simp only [] at h
-    obtain ⟨u', F', ho, hrf⟩ := node_err_canonical ⟨g, hr, hm⟩ sm op (hsup t u hr) m' e hne h
+    obtain ⟨u', F', ho, hrf⟩ := node_err_canonical ⟨g, hr, hm⟩ sm op m' e hne h
     exact ⟨_, F'.good, F'.bytes, ho, hrf⟩
 
 end Unsized.Machine
